@@ -46,8 +46,8 @@ TIE = 1e-9
 
 
 # ------------------------------------------------------------------ generators
-def gen_h(g, rng, n):
-    kind = rng.choice(["gapped", "degenerate", "clustered", "gue", "chain", "diag", "identity"])
+def gen_h(g, rng, n, kind=None):
+    kind = kind or rng.choice(["gapped", "degenerate", "clustered", "gue", "chain", "diag", "identity"])
     if kind in ("gapped", "degenerate", "clustered"):
         ev = np.sort(g.normal(size=n))
         if kind == "gapped" and n > 1:
@@ -96,8 +96,17 @@ def gen_case(rng, tier, small=False):
     ntol = hn * 10 ** rng.uniform(-13, -8)
     md = rng.choice([1, 2, 3, 5, 10, 20, 50, 100, rng.randint(1, 100)])
     mr = rng.choice([0, 1, 2, 5, 100])
-    if small:
-        md, mr = rng.randint(1, 7), rng.choice([0, 1, 3])
+    if small:   # dense stream: keep away from breakdown (rounding-noise betas are not comparable between two binary64 runs)
+        if rng.random() < 0.75:
+            n = rng.randint(3, 8)
+            kind = rng.choice(["gue", "chain", "gapped"])
+            _, h = gen_h(g, rng, n, kind)
+            v = g.normal(size=n) + 1j * g.normal(size=n)
+            hn = max(float(np.linalg.norm(h, 2)), 1e-300)
+            rtol, ntol = hn * 10 ** rng.uniform(-4, -1), hn * 1e-12
+            md, mr = rng.randint(1, max(1, n - 2)), rng.choice([0, 1, 3])
+        else:
+            md, mr = rng.randint(1, 7), rng.choice([0, 1, 3])
     shape = (n,) if rng.random() < 0.8 else (n, 1)
     return dict(kind=kind, n=n, h=h, v=v, shape=shape, rtol=rtol, ntol=ntol, md=md, mr=mr)
 
@@ -271,8 +280,10 @@ def oracle(case, kind, r, rec):
         return f"op applied {nops} times, iteration_count={r.iteration_count}"
     if r.happy_breakdown and not r.converged:
         return "happy_breakdown without converged"
-    if not (r.converged or r.happy_breakdown):
-        return None                       # the public wrapper raises: nothing is promised
+    if case["md"] == 0:
+        return None                       # no iteration ran: (q0, inf, inf), the public wrapper raises
+    # unit norm / Rayleigh / variational hold for every impl result (theorem energy_is_rayleigh_and_residual),
+    # also for the unconverged ones the public wrapper turns into RecursionError
     psi = r.ground_state.reshape(-1).numpy()
     e = float(r.ground_energy)
     nrm = float(np.linalg.norm(psi))
